@@ -1,5 +1,5 @@
 CONSTANTS Threshold = 5  Timeout = 300  Ticks = {3, 301}  MaxLen = 0
-SPECIFICATION Spec
+SPECIFICATION SpecR
 VIEW View
 INVARIANT TypeOK
 PROPERTIES OpensOnlyAfterThreshold HoldsWhileOpen ProbeAdmitted HalfAdmits SuccCloses FailReopens ClosedAdmits
